@@ -132,3 +132,20 @@ pub fn vx_split_ws_strings(s: &str) -> (r: Vec<String>)
 pub fn vx_split_char_strings(s: &str, c: char) -> (r: Vec<String>)
     ensures strings_view(r@) == split_char(s@, c)
 { unimplemented!() }
+
+/// `str::split_whitespace()` as the sequence of tokens not yet yielded (R-method-map)
+#[verifier::external_body]
+pub struct VxSplitWs<'a> { it: core::str::SplitWhitespace<'a> }
+impl<'a> VxSplitWs<'a> {
+    pub uninterp spec fn view(&self) -> Seq<Seq<char>>;
+    #[verifier::external_body]
+    pub fn next(&mut self) -> (r: Option<&'a str>)
+        ensures
+            old(self)@.len() == 0 ==> r is None && final(self)@ == old(self)@,
+            old(self)@.len() > 0 ==> r is Some && r->Some_0@ == old(self)@[0] && final(self)@ == old(self)@.skip(1),
+    { unimplemented!() }
+}
+#[verifier::external_body]
+pub fn vx_split_whitespace<'a>(s: &'a str) -> (r: VxSplitWs<'a>)
+    ensures r@ == ws_tokens(s@)
+{ unimplemented!() }
